@@ -2,7 +2,11 @@ package checks
 
 import (
 	"fmt"
+	"strconv"
 	"strings"
+	"unicode/utf8"
+
+	rio "github.com/pip-services3-gox/pip-services3-expressions-gox/io"
 
 	"github.com/pip-services3-gox/pip-services3-expressions-gox/tokenizers"
 
@@ -39,9 +43,13 @@ func hasPushBack(s string) bool {
 }
 
 func c04Check(c *mon.Case, kind, input string) {
+	cfgKind := kind
+	if strings.HasPrefix(kind, "csvcfg|") {
+		kind = "csv with configured delimiters" // the label used in signatures; the configuration is part of the replay payload
+	}
 	var toks []tok
 	p := mon.Try(func() {
-		t := newTokenizer(kind)
+		t := newTokenizer(cfgKind)
 		setOptions(t, 0)
 		toks = tokenizeAll(t, input)
 	})
@@ -166,6 +174,175 @@ func buildC04(cfg *mon.Config) []*mon.Sub {
 			}
 		},
 		Exec: exec,
+	})
+	subs = append(subs, &mon.Sub{
+		Name: "csv-configured-delimiters", Rule: "CSV tokenizers configured with one or two field separators and quote symbols drawn from TAB ; | ~ U+007F U+0080 U+00A0 U+00A7 U+00FF U+0100 U+2028 U+20AC U+FFFD U+FFFE (separators) and ' \" ` U+00AB U+00B4 U+2019 U+FFFE (quotes), on seeded inputs made of those very characters, letters, digits, blanks and line ends; same oracle (so every delimiter token carries exactly the delimiter's text); non-trivial = the input contains a configured separator (or a push-back character); distinct by hash",
+		Floor: 1000,
+		Gen: func(emit func(string)) {
+			r := cfg.Rng("c04-csvcfg")
+			seps := []rune{'\t', ';', '|', '~', 0x7f, 0x80, 0xa0, 0xa7, 0xff, 0x100, 0x2028, 0x20ac, 0xfffd, 0xfffe}
+			quotes := []rune{'\'', '"', '`', 0xab, 0xb4, 0x2019, 0xfffe}
+			for i := 0; i < cfg.N(6000, 300000); i++ {
+				ss := []rune{mon.Pick(r, seps)}
+				if r.Bool() {
+					ss = append(ss, mon.Pick(r, seps))
+				}
+				qs := []rune{mon.Pick(r, quotes)}
+				if r.Bool() {
+					qs = append(qs, mon.Pick(r, quotes))
+				}
+				ok := true
+				for _, q := range qs {
+					for _, s := range ss {
+						if q == s {
+							ok = false
+						}
+					}
+				}
+				if !ok {
+					continue
+				}
+				alpha := []string{"a", "b", "1", " ", "\n", "\r", "é", ",", "x y"}
+				for _, x := range append(append([]rune{}, ss...), qs...) {
+					alpha = append(alpha, string(x), string(x))
+				}
+				var b strings.Builder
+				for n := 1 + r.Intn(14); n > 0; n-- {
+					b.WriteString(mon.Pick(r, alpha))
+				}
+				emit("csvcfg|" + string(ss) + "|" + string(qs) + "\x00" + b.String())
+			}
+		},
+		Exec: func(c *mon.Case) {
+			i := strings.IndexByte(c.Payload, 0)
+			kind, input := c.Payload[:i], c.Payload[i+1:]
+			c04Check(c, kind, input)
+			if strings.ContainsAny(input, strings.SplitN(kind, "|", 3)[1]) {
+				c.NonTrivial()
+				c.Count("inputs-containing-a-configured-separator")
+			}
+		},
+	})
+	subs = append(subs, &mon.Sub{
+		Name: "partly-read-stream", Rule: "TokenizeStream on a scanner from which the caller has already read k characters (every k from 0 to the length, so also an exhausted scanner), all tokenizer configurations, seeded inputs: the token values must concatenate to exactly the unread rest and end with one end-of-input marker (nothing already consumed comes back); non-trivial = k > 0",
+		Floor: 1000,
+		Gen: func(emit func(string)) {
+			r := cfg.Rng("c04-partly")
+			for i := 0; i < cfg.N(3000, 150000); i++ {
+				emit(mon.Pick(r, allTokenizers) + "\x00" + randomTokenizerInput(r, 8))
+			}
+		},
+		Exec: func(c *mon.Case) {
+			i := strings.IndexByte(c.Payload, 0)
+			kind, input := c.Payload[:i], c.Payload[i+1:]
+			rs := []rune(input)
+			t := newTokenizer(kind)
+			setOptions(t, 0)
+			for k := 0; k <= len(rs); k++ {
+				sc := rio.NewStringScanner(input)
+				for j := 0; j < k; j++ {
+					sc.Read()
+				}
+				var got []*tokenizers.Token
+				if p := mon.Try(func() { got = t.TokenizeStream(sc) }); p != nil {
+					c.FailPanic("TokenizeStream "+kind, p)
+					return
+				}
+				var b strings.Builder
+				for _, x := range got {
+					b.WriteString(x.Value())
+				}
+				rest := string(rs[k:])
+				if strings.ContainsRune(rest, 0xFFFD) || !utf8.ValidString(rest) {
+					continue
+				}
+				if b.String() != rest || len(got) == 0 || got[len(got)-1].Type() != tokenizers.Eof {
+					c.Failf("tokenizer "+kind+": a partly read stream is not tokenized from where the caller stopped", "input=%q already read=%d rest=%q tokens=%s", input, k, rest, toksOf(got))
+					return
+				}
+			}
+			c.AddEvals(len(rs), 0)
+			if len(rs) > 0 {
+				c.NonTrivial()
+			}
+		},
+	})
+	subs = append(subs, &mon.Sub{
+		Name: "many-distinct-words-one-instance", Rule: fmt.Sprintf("%d x 250000 random identifiers of 8 letters and digits (practically all distinct), separated by single blanks (inside one tag for the mustache tokenizer), streamed through ONE instance of a built-in tokenizer, input after input, on 4 instances of each of the 4 tokenizers; every token value is compared with the text at its place as it arrives (same oracle, at a volume where anything remembered per spelling is exercised); a case is one tokenizer instance", cfg.N(4, 40)),
+		Exhaustive: true, DistinctByGen: true, Floor: 16,
+		Gen: func(emit func(string)) {
+			for inst := 0; inst < 4; inst++ {
+				for _, k := range builtinTokenizers {
+					emit(k + "\x00" + strconv.Itoa(cfg.N(4, 40)) + "\x00" + strconv.Itoa(inst))
+				}
+			}
+		},
+		Exec: func(c *mon.Case) {
+			i := strings.IndexByte(c.Payload, 0)
+			kind := c.Payload[:i]
+			rest := strings.SplitN(c.Payload[i+1:], "\x00", 2)
+			rounds, _ := strconv.Atoi(rest[0])
+			r := mon.NewRng(12345, "c04-volume-"+kind+rest[len(rest)-1])
+			t := newTokenizer(kind)
+			setOptions(t, 0)
+			const letters = "abcdefghijklmnopqrstuvwxyz0123456789"
+			words := 0
+			for round := 0; round < rounds; round++ {
+				var b strings.Builder
+				if kind == "mustache" {
+					b.WriteString("{{")
+				}
+				for w := 0; w < 250000; w++ {
+					b.WriteByte(letters[r.Intn(26)])
+					for x, n := r.Next(), 7; n > 0; n-- {
+						b.WriteByte(letters[x%36])
+						x /= 36
+					}
+					b.WriteByte(' ')
+				}
+				if kind == "mustache" {
+					b.WriteString("}}")
+				}
+				input := b.String()
+				pos := 0
+				bad := ""
+				if p := mon.Try(func() {
+					t.SetReader(rio.NewStringScanner(input))
+					for {
+						x := t.NextToken()
+						if x == nil {
+							break
+						}
+						v := x.Value()
+						if x.Type() == tokenizers.Eof {
+							continue
+						}
+						if v == "" || !strings.HasPrefix(input[pos:], v) {
+							end := pos + 20
+							if end > len(input) {
+								end = len(input)
+							}
+							bad = fmt.Sprintf("round %d, offset %d: token %s where the input has %q", round, pos, tok{x.Type(), v, x.Line(), x.Column()}, input[pos:end])
+							return
+						}
+						pos += len(v)
+						words++
+					}
+				}); p != nil {
+					c.FailPanic("tokenizer "+kind, p)
+					return
+				}
+				if bad == "" && pos != len(input) {
+					bad = fmt.Sprintf("round %d: tokens cover %d of %d bytes", round, pos, len(input))
+				}
+				if bad != "" {
+					c.Failf("tokenizer "+kind+": token values do not concatenate to the input", "%s", bad)
+					return
+				}
+			}
+			c.AddEvals(words, 0)
+			c.NonTrivial()
+		},
 	})
 	subs = append(subs, corpusSub(cfg, "corpus", "tokenize", func(c *mon.Case, data string) {
 		for _, k := range allTokenizers {
